@@ -35,8 +35,9 @@ ASSUMPTIONS = [
     'the minilang evaluator (transcribed from XPath 2.0/3.1 and F&O) is the ground truth',
     'a dynamic error that the model finds in a nested sub-expression may legitimately be absent (lazy '
     'evaluation, XPath 2.3.4): only errors raised by the root construct on fully evaluated arguments are demanded',
-    'decimal division beyond 18 digits and floating point sums that depend on the order of additions are '
-    'compared with a relative tolerance of 1e-12',
+    'decimal division beyond 18 digits, floating point sums that depend on the order of additions and values '
+    'derived from inexact xs:float results are compared with a relative tolerance of 1e-6; comparisons, '
+    'predicates, mod and idiv on such values are undecided when the outcome could flip',
     'distinct-values: order and choice of representative are free; min/max over mixed xs:integer/xs:decimal may '
     'return either type; the sign of a zero chosen among equal zeros is free',
     'float / double arithmetic details, casts and string forms of doubles belong to C06/C10 and are avoided',
@@ -130,6 +131,9 @@ def model_eval(ast, version, extvars, eager=False):
 
 # ------------------------------------------------------------------ comparison
 NUMLABELS = ('integer', 'decimal', 'double', 'float')
+# imprecise values: decimal division digits, order of floating point additions, and xs:float intermediate
+# results that the engine keeps in double precision (C06 finding float/computed-in-double-precision)
+APPROX_TOL = Fraction(1, 10 ** 6)
 
 
 def num_of(d):
@@ -165,7 +169,7 @@ def item_diff(x, g, ev):
         if isinstance(en, str) or isinstance(gn, str):
             same = en == gn
         elif x.approx:
-            same = abs(en - gn) <= Fraction(1, 10 ** 12) * max(abs(en), abs(gn), Fraction(1, 10 ** 300))
+            same = abs(en - gn) <= APPROX_TOL * max(abs(en), abs(gn), Fraction(1, 10 ** 300))
         else:
             same = en == gn
         if not same and e[0] == 'float' and g[0] in ('float', 'double') and not isinstance(en, str):
@@ -240,10 +244,23 @@ def dv_nesting_safe(ast):
 
 def judge(ast, version, extvars):
     """-> dict(status ok|undecided|fail, diff, text, expected, got, reason)"""
+    try:
+        return _judge(ast, version, extvars)
+    except Undecided as u:
+        return {'text': ml.render(ast), 'status': 'undecided', 'diff': None, 'reason': 'compare:' + str(u)[:30],
+                'got': ['?'], 'expected': ['undecided', str(u)], 'model': ('undecided', str(u), None)}
+
+
+def _judge(ast, version, extvars):
     text = ml.render(ast)
     res = {'text': text, 'status': 'ok', 'diff': None, 'reason': None}
-    eo = engine_eval(text, version, extvars)
     mo = model_eval(ast, version, extvars)
+    if mo[0] == 'undecided' and ('budget' in mo[1] or 'too long' in mo[1]):
+        # too much work for a unit case: do not even ask the engine (it would only be slow, not wrong)
+        res.update(status='undecided', reason='model:' + mo[1][:40], got=['skipped'], expected=['undecided', mo[1]],
+                   model=mo)
+        return res
+    eo = engine_eval(text, version, extvars)
     res['got'] = list(eo)
     if mo[0] == 'ok':
         res['expected'] = ['ok', ml.describe_seq(mo[1])]
@@ -347,6 +364,14 @@ def instantiations(ast, version, extvars):
     env = model_env(extvars)
     try:
         if k in ml.BINDERS:
+            for i in range(1, len(ast[1])):
+                n = 0
+                for e in ml.iter_bindings(ev, ast[1][:i], env, None):
+                    local = {name: e[name] for name, _ in ast[1][:i]}
+                    yield ml.substitute(ast[1][i][1], local, None)
+                    n += 1
+                    if n >= 6:
+                        break
             n = 0
             for e in ml.iter_bindings(ev, ast[1], env, None):
                 local = {name: e[name] for name, _ in ast[1]}
@@ -465,6 +490,20 @@ def top_type(seq, ev):
     return 'non-numeric'
 
 
+def focus_parts(ast):
+    """which parts of its own focus an expression uses: ctx / pos / last"""
+    parts = set()
+
+    def rec(node):
+        if node[0] in ('ctx', 'pos', 'last'):
+            parts.add(node[0])
+        for c, role in ml.children(node):
+            if role == 'same':
+                rec(c)
+    rec(ast)
+    return '+'.join(sorted(parts)) or 'none'
+
+
 def arg_class(ast, version, extvars, diff=''):
     k = ast[0]
     ev = ml.Evaluator(version, MODEL_DOC)
@@ -480,10 +519,11 @@ def arg_class(ast, version, extvars, diff=''):
             args = [val(a) for a in ast[2:]]
             n = len(args[0]) if args and args[0] is not None else 0
             if name == 'subsequence':
-                cls = 'start=%s' % pos_class(args[1], n)
-                if len(args) > 2:
-                    cls += ',len=%s' % pos_class(args[2], n)
-                return cls
+                # the most special class among start / length (keeps one mechanism under few keys)
+                order = ['unknown', 'empty', 'multi', 'non-numeric', 'nan', 'inf', '-inf', 'half', 'half-neg',
+                         'frac', 'frac-neg', 'neg', 'zero', 'beyond', 'in']
+                cl = [pos_class(a, n) for a in args[1:3]]
+                return '%dargs:%s' % (len(args), min(cl, key=order.index))
             if name in ('insert-before', 'remove'):
                 return 'pos=%s' % pos_class(args[1], n)
             if name in ('sum', 'avg', 'min', 'max'):
@@ -505,13 +545,13 @@ def arg_class(ast, version, extvars, diff=''):
             p = ast[2]
             if p[0] == 'lit':
                 base = val(ast[1])
-                return 'pred-literal:%s:%s' % (p[1], pos_class([ml.lit_value(p[1], p[2])],
-                                                            len(base) if base is not None else 0))
-            return 'pred:%s' % label(p)
+                return 'pred-literal:%s' % pos_class([ml.lit_value(p[1], p[2])],
+                                                     len(base) if base is not None else 0)
+            return 'pred-uses:%s' % focus_parts(p)
         if k in ml.BINDERS:
             return '%dvars' % len(ast[1])
         if k == 'map':
-            return 'rhs:%s' % label(ast[2])
+            return 'rhs-uses:%s' % focus_parts(ast[2])
         if k == 'to':
             return ','.join(pos_class(val(a), 10 ** 9) for a in ast[1:3])
         if k in ('arith', 'vcmp', 'gcmp'):
@@ -539,8 +579,20 @@ def fail_key(ast, version, extvars, res):
             return 'C08/binding/range-expression-mentions-own-variable-name/XPST0008', node, r
     if diff == 'value' and node[0] in ('filter', 'map') and focus_leak_shape(node[2]):
         return 'C08/quantified/focus-in-satisfies-after-filter-in-range/value', node, r
+    if (diff == 'value' or diff.startswith('error-unexpected')) and early_exit_shape(node) \
+            and node[0] in ('filter', 'map', 'for', 'some', 'every', 'seq'):
+        return 'C08/focus-not-restored-after-early-exit-consumer/%s' % diff.split(':')[0], node, r
     cls = arg_class(node, version, extvars, diff)
     return 'C08/%s/%s/%s' % (label(node), cls, diff), node, r
+
+
+def early_exit_shape(ast):
+    """head/exists/empty (consumers that stop after the first item) over an expression that sets a focus"""
+    for n in ml.walk(ast):
+        if n[0] == 'call' and n[1] in ('head', 'exists', 'empty'):
+            if any(m[0] in ('filter', 'map') for m in ml.walk(n[2])):
+                return True
+    return False
 
 
 def focus_leak_shape(ast):
@@ -724,6 +776,8 @@ class Gen:
             else:
                 body = self.with_focus(k2, lambda: self.seq(d - 1, kind) if r.random() < 0.4
                                        else self.item(d - 1, kind))
+                if r.random() < 0.2:
+                    body = self.with_focus(k2, lambda: self.after_probe(d - 1, body))
             return ['map', base, body]
         if c == 'comma':
             parts = [self.seq(d - 1, kind) if r.random() < 0.6 else self.item(d - 1, kind)
@@ -770,7 +824,10 @@ class Gen:
                     k2 = kind if r.random() < 0.6 else r.choice(['int', 'num', 'str'])
                 self.pending.append(name)
                 try:
-                    binds.append([name, self.seq(d - 1, k2)])
+                    src = self.seq(d - 1, k2)
+                    if binds and self.allow30 and k2 != 'node' and r.random() < 0.12:
+                        src = ['call', 'head', ['filter', src, self.with_focus(k2, lambda: self.pred(d - 2, k2))]]
+                    binds.append([name, src])
                 finally:
                     self.pending.pop()
                 self.vars[name] = k2
@@ -787,6 +844,15 @@ class Gen:
         finally:
             self.vars = saved
         return [word, binds, body]
+
+    def after_probe(self, d, body):
+        """(probe, body): a consumer that may stop early over a focus-setting expression, then the body
+        (which may use the outer focus)"""
+        r = self.r
+        k = r.choice(['int', 'num', 'str'])
+        inner = ['filter', self.seq(d - 1, k), self.with_focus(k, lambda: self.pred(d - 1, k))]
+        fn = r.choice(['exists', 'empty', 'head', 'count'] if self.allow30 else ['exists', 'empty', 'count'])
+        return ['seq', ['call', 'count', ['call', fn, inner]], body]
 
     # ---- singleton (or empty) items
     def item(self, d, kind):
@@ -1268,9 +1334,16 @@ def check_equiv(case, out):
     rel = case['rel']
     ta = ml.render(case['a'])
     tb = ml.render(case['b'])
+    out.dim('equiv', rel)
+    for side in ('a', 'b'):
+        m = model_eval(case[side], version, extvars)
+        if m[0] == 'undecided' and ('budget' in m[1] or 'too long' in m[1]):
+            out.dim('equiv_outcome', 'too-big-skipped')
+            out.nontrivial = False
+            out.obs = 'skipped (work bound): %s' % ta[:100]
+            return
     ea = engine_eval(ta, version, extvars)
     eb = engine_eval(tb, version, extvars)
-    out.dim('equiv', rel)
     out.dim('version', version)
     out.obs = '%s  ==  %s : %s' % (ta[:100], tb[:100], str(ea)[:80])
     for side, e, t in (('lhs', ea, ta), ('rhs', eb, tb)):
@@ -1289,6 +1362,14 @@ def check_equiv(case, out):
         if ma[0] == 'undecided' or mb[0] == 'undecided' or ma[0] == 'err' or mb[0] == 'err':
             out.dim('equiv_outcome', 'undecided')
             return
+        try:
+            equiv_verdict(case, out, rel, version, extvars, ta, tb, ea, eb, ma, mb)
+        except Undecided:
+            out.dim('equiv_outcome', 'undecided')
+
+
+def equiv_verdict(case, out, rel, version, extvars, ta, tb, ea, eb, ma, mb):
+    if True:
         sides = []
         if seq_diff(ma[1], ea[1], ma[2]):
             sides.append('lhs')
@@ -1370,7 +1451,7 @@ def shrink(kind, case):
             seen.add(key)
             used = ml.free_vars(v)
             yield {'v': case['v'], 'e': v, 'vars': {k: x for k, x in extvars.items() if k in used},
-                   'root': case.get('root')}
+                   'root': label(v)}
             n += 1
             if n > 400:
                 break
@@ -1393,9 +1474,9 @@ def shrink(kind, case):
 # ------------------------------------------------------------------ driver
 def run(h):
     r = h.rng
-    for _ in range(h.n(22000)):
+    for _ in range(h.n(16000)):
         h.case('prog', gen_program(r))
-    for _ in range(h.n(4000)):
+    for _ in range(h.n(3000)):
         h.case('equiv', gen_equiv(r))
 
 
